@@ -34,7 +34,7 @@ META = {
   note="Three input-related mutation classes that leave the identifier unchanged are recorded findings (known_findings.json) and excluded by signature; update policy and value type are not in the property's list and are not asserted. Alias import is checked both as a rename transformation and through the real manifest reader (generated .spkg imported by a generated YAML manifest: prefixModules, reindexAndMergePackage).",
   technique="rapid random generation, metamorphic relations over single-field mutations"),
  "C07": dict(
-  text="Random + bounded-exhaustive exploration of cache states: the universe is the set of real files a complete run leaves plus the partial stores harvested after each segment job plus truncated debris under dstore's temporary name; a case copies a subset (crash-point prefixes of the write order, single evictions, random subsets; thorough enumerates all 2^n subsets for universes of <= 12 files) into a fresh directory and re-runs the request: it must complete, its stream and final stores must satisfy the C01 oracle against the sequential execution, and every file it leaves that the clean run also leaves must decode to equivalent content.",
+  text="Random + bounded-exhaustive exploration of cache states: the universe is the set of real files a complete run leaves plus the partial stores harvested after each segment job plus truncated debris under dstore's temporary name; a case copies a subset (crash-point prefixes of the write order, single evictions, random subsets; thorough enumerates all 2^n subsets for universes of <= 9 files) into a fresh directory and re-runs the request: it must complete, its stream and final stores must satisfy the C01 oracle against the sequential execution, and every file it leaves that the clean run also leaves must decode to equivalent content.",
   design_ref="DESIGN.md section 3, C07",
   note="Equivalence of files is judged on the files both runs leave (a run that finds later snapshots legitimately skips earlier ones). Truncated files carry dstore's '.tmp' suffix, which is how a half-written file looks on the local store; a truncated file under its final name cannot occur with dstore's write-then-rename.",
   technique="rapid random generation + exhaustive subset enumeration, differential against the sequential reference"),
